@@ -17,7 +17,8 @@ mv tests/mut_demo.rs /tmp/.mut_demo_hold.$$
 cargo test --workspace --no-fail-fast --offline 2>&1 | grep -E "^test result|FAILED|failed" | head -6
 mv /tmp/.mut_demo_hold.$$ tests/mut_demo.rs
 echo "== mutant: demo"
-cargo test --offline $EXTRA --test mut_demo 2>&1 | grep -E "^test result|panicked" | head -5
+cargo test --offline $EXTRA --test mut_demo > /tmp/.mut_demo_out.$$ 2>&1
+grep -E "^test result" /tmp/.mut_demo_out.$$ | head -3; grep -E "panicked" /tmp/.mut_demo_out.$$ | head -2; rm -f /tmp/.mut_demo_out.$$
 git checkout -q -- src
 rm -f tests/mut_demo.rs
 git status --short | grep -v "^?? OUT" | head -3
